@@ -175,6 +175,10 @@ pub trait Property: Sync {
     }
     /// evaluate one case in the worker
     fn run_case(&self, tier: Tier, case: u64, acc: &mut Acc);
+    /// human-readable form of one case (debugging aid)
+    fn show(&self, _tier: Tier, _case: u64) -> String {
+        "n/a".into()
+    }
     /// replay a witness (without the explorer); returns violations found
     fn replay(&self, witness: &Value, acc: &mut Acc);
     /// what to do with a worker that died/hung at `case`
